@@ -29,7 +29,7 @@ func init() {
 		Technique: "property-based testing: token-soup and mutation generators + bounded-exhaustive enumeration, totality oracle in a sandboxed worker; native fuzzing in the thorough tier",
 		Rule: "inputs: (a) random sequences of 0-40 fragments over a ~130-fragment dictionary (all delimiters, operators, keywords, quotes, CR/LF, invalid UTF-8), " +
 			"(b) every prefix, single-fragment deletion and dictionary insertion at fragment boundaries of the repository's test templates and of generated programs, " +
-			"(c) every string of <= K fragments over a 16-fragment core alphabet; each parsed through parse.Parse, stick.New(nil).Parse and twig.New(nil).Parse. " +
+			"(c) every string of <= K fragments over a 16-fragment core alphabet, (e) legal nesting 10..3000 levels deep of every bracket and body-carrying tag, complete and truncated; each parsed through parse.Parse, stick.New(nil).Parse and twig.New(nil).Parse. " +
 			"Oracle: parser returns a tree xor an error within the deadline; panic, worker death (lexer goroutine), confirmed hang or memory blow-up is a violation. " +
 			"Non-trivial: input contains an opening delimiter and is either rejected with an error or was derived by mutating a well-formed template; distinct by content.",
 		Assumptions: []string{
@@ -158,6 +158,34 @@ func init() {
 				}
 				if !batch(c, env, muts, "insert") {
 					break
+				}
+			}
+		}
+
+		// (e) deep but legal nesting (far below the ~10^4 levels the statement
+		// excludes), complete and cut off in the middle
+		deep := func(open, mid, close string, n int) []string {
+			full := strings.Repeat(open, n) + mid + strings.Repeat(close, n)
+			return []string{full, full[:len(full)/2], strings.Repeat(open, n) + mid, strings.Repeat(open, n)}
+		}
+		di := 0
+		for _, n := range []int{10, 100, 1000, 3000} {
+			var srcs []string
+			srcs = append(srcs, deep("{{ (", "1", ") }}", 1)...)
+			srcs = append(srcs, "{{ "+strings.Repeat("(", n)+"1"+strings.Repeat(")", n)+" }}", "{{ "+strings.Repeat("[", n)+strings.Repeat("]", n)+" }}",
+				"{{ "+strings.Repeat("{a:", n)+"1"+strings.Repeat("}", n)+" }}", "{{ a"+strings.Repeat(".b", n)+" }}", "{{ a"+strings.Repeat("|f", n)+" }}",
+				"{{ "+strings.Repeat("- ", n)+"1 }}", "{{ "+strings.Repeat("not ", n)+"a }}", "{{ 1"+strings.Repeat(" + 1", n)+" }}", "{{ a"+strings.Repeat(" ? b : c", n)+" }}",
+				"{{ a"+strings.Repeat("[0]", n)+" }}", "{{ f"+strings.Repeat("(f", n)+strings.Repeat(")", n)+" }}", "{{ \""+strings.Repeat("#{a}", n)+"\" }}")
+			srcs = append(srcs, deep("{% if x %}", "t", "{% endif %}", n)...)
+			srcs = append(srcs, deep("{% for i in x %}", "t", "{% endfor %}", n)...)
+			srcs = append(srcs, deep("{% block b %}", "t", "{% endblock %}", n)...)
+			srcs = append(srcs, deep("{% set v %}", "t", "{% endset %}", n)...)
+			srcs = append(srcs, deep("{% filter f %}", "t", "{% endfilter %}", n)...)
+			srcs = append(srcs, strings.Repeat("{% if x %}a{% elseif y %}", n)+strings.Repeat("{% endif %}", n), strings.Repeat("{# c #}", n), strings.Repeat("{{ a }}", n), strings.Repeat("{", n), strings.Repeat("{{", n), strings.Repeat("{% ", n))
+			for _, src := range srcs {
+				di++
+				if c.Mine(di) {
+					sub.Check(c, &c01Case{Env: envs[di%3], Src: sb.BS(src), How: "deep"})
 				}
 			}
 		}
